@@ -151,6 +151,9 @@ func (e *Engine) harnessCall(st *State, th *Thread, fn *ssa.Function, args []Val
 		return IntV{tb.Bin("bvsub", inner.Off, outer.Off)}, true
 	case "verifTime":
 		return e.mkTime(args[0].(IntV).T), true
+	case "verifClockRange":
+		st.clockLo, st.clockHi = args[0].(IntV).T, args[1].(IntV).T
+		return nil, true
 	case "verifTimeNS":
 		return IntV{timeNS(args[0])}, true
 	case "verifAllocCount":
@@ -201,6 +204,11 @@ func (e *Engine) harnessCall(st *State, th *Thread, fn *ssa.Function, args []Val
 			return SliceV{Obj: o.id, Off: tb.BV(0, 64), Len: nn, Cap: nn}, true
 		}
 		panic(engineErr("no such Checksum call"))
+	case "verifDebug":
+		if iv, ok := args[0].(IntV); ok {
+			fmt.Fprintf(os.Stderr, "DEBUG %s size=%d op=%s const=%v\n", args[1].(StrV).S, termSize(iv.T, map[*Term]bool{}), iv.T.Op, iv.T.IsConst())
+		}
+		return nil, true
 	case "verifNote":
 		return nil, true
 	case "verifPendingGoroutines":
